@@ -488,6 +488,9 @@ async fn reload_by_signal(st: &mut Stats, pki: &Pki, cycles: usize, client_ca: b
         std::fs::copy(pki.p(&format!("srv-{which}.key")), &live_key).expect("copy key");
     };
     install("trusted");
+    // the client-CA bundle is a live file too (replaced in the last step)
+    let live_ca = pki.p(&format!("live-ca-{tag}.pem"));
+    std::fs::copy(pki.p("cax.pem"), &live_ca).expect("copy ca");
     let port = net::free_tcp_port(false);
     let args: &'static ServerArgs = Box::leak(Box::new(ServerArgs {
         host: vec!["127.0.0.1".to_string()],
@@ -495,10 +498,11 @@ async fn reload_by_signal(st: &mut Stats, pki: &Pki, cycles: usize, client_ca: b
         not_found_resp: "404".to_string(),
         tls_cert: Some(live_pem.clone()),
         tls_key: Some(live_key.clone()),
-        tls_ca: if client_ca { Some(pki.p("cax.pem")) } else { None },
+        tls_ca: if client_ca { Some(live_ca.clone()) } else { None },
         ..Default::default()
     }));
     let server = tokio::spawn(rusty_penguin_lib::server::server_main(args));
+    let mut trust_now = pki.p("ca1.pem");
     let addr = SocketAddr::from(([127, 0, 0, 1], port));
     let mut up = false;
     for _ in 0..200 {
@@ -582,6 +586,7 @@ async fn reload_by_signal(st: &mut Stats, pki: &Pki, cycles: usize, client_ca: b
             continue;
         }
         st.target("signal_reload_cycles", 1);
+        trust_now = other_ca.clone();
         column(st, addr, other_ca, client_ca, &good, &bad, &when).await;
         if let Some(tls) = est {
             match net::raw_http(tls, REQ, false).await {
@@ -590,7 +595,87 @@ async fn reload_by_signal(st: &mut Stats, pki: &Pki, cycles: usize, client_ca: b
             }
         }
     }
+    if client_ca {
+        overtaken_reload(st, pki, addr, &live_ca, &trust_now, &good, &bad).await;
+    }
     server.abort();
+}
+
+/// Two reload requests in a row, the first one slow: the operator replaces the client-CA bundle (cax -> ca2) and signals while
+/// an earlier reload is still reading the old bundle (made slow with a FIFO in place of the file). What later handshakes see
+/// must be the state of the files at the LAST request: clients under ca2 are admitted, clients under cax no longer are.
+async fn overtaken_reload(st: &mut Stats, pki: &Pki, addr: SocketAddr, live_ca: &str, trust: &str, old_client: &(String, String), new_client: &(String, String)) {
+    let usr1 = || std::process::Command::new("kill").arg("-USR1").arg(std::process::id().to_string()).status().map(|s| s.success()).unwrap_or(false);
+    let fifo = format!("{live_ca}.fifo");
+    let old_bundle = std::fs::read(pki.p("cax.pem")).expect("read cax");
+    std::fs::remove_file(live_ca).ok();
+    let made = std::process::Command::new("mkfifo").arg(live_ca).status().map(|s| s.success()).unwrap_or(false);
+    if !made || !usr1() {
+        std::fs::copy(pki.p("cax.pem"), live_ca).ok();
+        st.inconclusive.push("c17 overtaken reload: cannot create a FIFO / send SIGUSR1".into());
+        return;
+    }
+    // reload A is now reading the bundle (blocked on the FIFO)
+    tokio::time::sleep(std::time::Duration::from_millis(400)).await;
+    std::fs::rename(live_ca, &fifo).expect("move fifo aside");
+    let tmp = format!("{live_ca}.new");
+    std::fs::copy(pki.p("ca2.pem"), &tmp).expect("copy new bundle");
+    std::fs::rename(&tmp, live_ca).expect("install new bundle");
+    if !usr1() {
+        st.inconclusive.push("c17 overtaken reload: cannot send the second SIGUSR1".into());
+        return;
+    }
+    // reload B was requested after the replacement
+    tokio::time::sleep(std::time::Duration::from_millis(400)).await;
+    // now let reload A finish with the OLD content
+    let fifo2 = fifo.clone();
+    let fed = tokio::task::spawn_blocking(move || {
+        use std::io::Write;
+        use std::os::unix::fs::OpenOptionsExt;
+        for _ in 0..100 {
+            match std::fs::OpenOptions::new().write(true).custom_flags(libc::O_NONBLOCK).open(&fifo2) {
+                Ok(mut f) => {
+                    let _ = f.write_all(&old_bundle);
+                    return true;
+                }
+                Err(_) => std::thread::sleep(std::time::Duration::from_millis(20)),
+            }
+        }
+        false
+    }).await.unwrap_or(false);
+    if !fed {
+        st.inconclusive.push("c17 overtaken reload: the first reload never opened the FIFO (it does not read the bundle the way this step assumes)".into());
+        return;
+    }
+    st.evaluations += 1;
+    // bounded wait for the final state, then a second look after both reloads had time to finish
+    let mut fin = (Err("not tried".to_string()), Err("not tried".to_string()));
+    for round in 0..2 {
+        for _ in 0..120 {
+            let new_ok = reaches(addr, "localhost", Some(&new_client.0), Some(&new_client.1), Some(trust), false).await;
+            let old_ok = reaches(addr, "localhost", Some(&old_client.0), Some(&old_client.1), Some(trust), false).await;
+            fin = (new_ok, old_ok);
+            if fin == (Ok(true), Ok(false)) {
+                break;
+            }
+            tokio::time::sleep(std::time::Duration::from_millis(25)).await;
+        }
+        if round == 0 {
+            tokio::time::sleep(std::time::Duration::from_millis(500)).await;
+        }
+    }
+    st.target("overtaken_reloads", 1);
+    st.nontrivial(mix(0x0E17, 1));
+    let replay = json!({"kind": "c17-overtaken-reload", "new_client_admitted": format!("{:?}", fin.0), "old_client_admitted": format!("{:?}", fin.1)});
+    match fin {
+        (Ok(true), Ok(false)) => {}
+        (Ok(n), Ok(o)) => st.violation(Violation {
+            signature: format!("signal-reload|superseded-reload-won|new-admitted={n}|old-admitted={o}"),
+            detail: format!("the client-CA bundle was replaced (cax -> ca2) and SIGUSR1 sent while an earlier reload was still reading the old bundle; 3 s after both reloads could finish, a client under the new CA is {} and a client under the removed CA is {}: later handshakes see the files as they were at an earlier request, not at the last one", if n { "admitted" } else { "refused" }, if o { "still admitted" } else { "refused" }),
+            replay,
+        }),
+        other => st.inconclusive.push(format!("c17 overtaken reload: {other:?}")),
+    }
 }
 
 pub fn run(p: &Params) -> (Stats, &'static str) {
